@@ -318,6 +318,7 @@ theorem dstep_valid (ds : DSt) (op : DOp) (hv : DValid ds) (hs : DOpOK op) : DVa
   | setProp path name wf empty replace => rw [dstep_st _ _ (by intro o h; cases h)]; exact hv.sheet
   | setPropObj path name => rw [dstep_st _ _ (by intro o h; cases h)]; exact hv.sheet
   | removeProp path name => rw [dstep_st _ _ (by intro o h; cases h)]; exact hv.sheet
+  | sharePropObj path src i => rw [dstep_st _ _ (by intro o h; cases h)]; exact hv.sheet
 
 /-- the empty sheet, where every rule object yet to be made comes with its own block, is valid -/
 theorem dempty_valid (raising : Bool) : DValid (DSt.init (St.empty raising)) :=
@@ -397,6 +398,19 @@ theorem share_style_breaks_links :
     ds.style 0 = ds.style 1 ∧ ds.bprule (ds.style 1) = some 0 ∧ ¬ DLinks ds := by
   refine ⟨by decide, by decide, fun h => ?_⟩
   have := h.blockUp 1
+  revert this
+  decide
+
+/-- the same one level down: `a{} b{}`, `rule1.style.setProperty('top', …)`, then
+`rule0.style.setProperty(<that Property object>)` — the property is in two blocks and names only the first rule's.
+Recorded as known finding `C09-shared-property`. -/
+theorem share_property_breaks_links :
+    let ds := drun (DSt.init St.empty) [.sheet (.add styleS false), .sheet (.add styleS false),
+      .setProp [1] [0x74] true false true, .sharePropObj [0] [1] 1]
+    (∃ p, p ∈ ds.bprops (ds.style 0) ∧ p ∈ ds.bprops (ds.style 1) ∧ ds.ph.parent p = some (ds.style 0)) ∧
+      ¬ DLinks ds := by
+  refine ⟨⟨PId.made 0, by decide, by decide, by decide⟩, fun h => ?_⟩
+  have := h.propUp (BId.init 1) (PId.made 0) (by decide)
   revert this
   decide
 
